@@ -563,3 +563,121 @@ def rule_p2(repo, res):
         if not ok:
             res.add(Finding("P2", f"{CONTAINER}.extend", "self.append(key, value)",
                             "extend() no longer adds each pair through append()", where=f"pvl/collections.py:{ext.lineno}"))
+
+
+def rule_m4(repo, res):
+    """M4 documented list semantics (structural necessary conditions; values are not computed): lookup returns the
+    FIRST value, assignment replaces the first occurrence and filters the later ones by key, deletion filters by
+    key, pop() takes the LAST pair, insert places the pairs at consecutive indices, insert_after/insert_before use
+    key_index(...) + 1 / + 0, key_index returns the instance-th position of the key."""
+    items = item_attr(repo)
+    dal = dict_aliases(repo)
+    getters = {a for a, m in dal.items() if m == "__getitem__"} | {"dict.__getitem__"}
+    ci = repo.cls(CONTAINER)
+    F = lambda m, what, msg: res.add(Finding("M4", f"{CONTAINER}.{m}", what, msg,
+                                             where=f"pvl/collections.py:{ci.methods[m].lineno}"))
+
+    def is_items(v):
+        return isinstance(v, ast.Attribute) and v.attr == items
+
+    # lookup by key -> first value
+    fn = ci.methods["__getitem__"]
+    rets = [r for r in ast.walk(fn) if isinstance(r, ast.Return) and isinstance(r.value, ast.Subscript)
+            and isinstance(r.value.value, ast.Call) and norm(r.value.value.func) in getters]
+    ok = bool(rets) and all(isinstance(r.value.slice, ast.Constant) and r.value.slice.value == 0 for r in rets)
+    res.oblige("M4", f"{CONTAINER}.__getitem__(key) returns the first value of the key's value list", ok=ok)
+    if not ok:
+        F("__getitem__", "first value", "lookup by key no longer returns element [0] of the key's value list (the value of "
+          "the first pair with that key)")
+    ok = any(isinstance(r, ast.Return) and isinstance(r.value, ast.Subscript) and is_items(r.value.value) for r in ast.walk(fn))
+    res.oblige("M4", f"{CONTAINER}.__getitem__(int/slice) indexes the item list", ok=ok)
+    if not ok:
+        F("__getitem__", "index access", "integer/slice indexing no longer reads the item list")
+    # getall -> all values in order (a copy)
+    fn = ci.methods["getall"]
+    ok = any(isinstance(r, ast.Return) and isinstance(r.value, ast.Call) and norm(r.value.func) == "list" and r.value.args and
+             isinstance(r.value.args[0], ast.Call) and norm(r.value.args[0].func) in getters for r in ast.walk(fn))
+    res.oblige("M4", f"{CONTAINER}.getall returns a copy of the key's value list", ok=ok)
+    if not ok:
+        F("getall", "list(<value list>)", "getall no longer returns a copy of the whole value list of the key")
+    # __setitem__
+    fn = ci.methods["__setitem__"]
+    first = fn.body[0] if fn.body else None
+    while isinstance(first, ast.Expr) and isinstance(first.value, ast.Constant):
+        first = fn.body[fn.body.index(first) + 1]
+    ok = isinstance(first, ast.If) and norm(first.test) in ("key not in self",) and any(
+        isinstance(b, ast.Return) and "self.append(key, value)" in norm(b) for b in first.body)
+    res.oblige("M4", f"{CONTAINER}.__setitem__ appends when the key is new", ok=ok)
+    if not ok:
+        F("__setitem__", "new key -> append", "assignment to a new key no longer appends the pair")
+    loops = [n for n in ast.walk(fn) if isinstance(n, ast.For)]
+    ok = False
+    for lp in loops:
+        for st in ast.walk(lp):
+            if isinstance(st, ast.If) and isinstance(st.test, ast.Compare) and isinstance(st.test.ops[0], ast.Eq) \
+                    and "key" in {norm(st.test.left), norm(st.test.comparators[0])}:
+                sets = [b for b in st.body if isinstance(b, ast.Assign) and isinstance(b.targets[0], ast.Subscript)
+                        and is_items(b.targets[0].value) and norm(b.value) == "(key, value)"]
+                brk = any(isinstance(b, ast.Break) for b in st.body)
+                ok = ok or (bool(sets) and brk)
+    res.oblige("M4", f"{CONTAINER}.__setitem__ replaces the first pair with the key (then stops)", ok=ok)
+    if not ok:
+        F("__setitem__", "replace first", "assignment no longer replaces exactly the first pair with that key")
+    filt = [n for n in ast.walk(fn) if isinstance(n, ast.ListComp) and any(
+        isinstance(c, ast.Compare) and isinstance(c.ops[0], ast.NotEq) and norm(c.comparators[0]) == "key" and "[0]" in norm(c.left)
+        for g in n.generators for c in g.ifs)]
+    ok = bool(filt)
+    res.oblige("M4", f"{CONTAINER}.__setitem__ drops the later pairs with the key (filter item[0] != key)", ok=ok)
+    if not ok:
+        F("__setitem__", "drop later", "assignment no longer removes the later pairs that have the same key")
+    # __delitem__
+    fn = ci.methods["__delitem__"]
+    filt = [n for n in ast.walk(fn) if isinstance(n, ast.ListComp) and any(
+        isinstance(c, ast.Compare) and isinstance(c.ops[0], ast.NotEq) and norm(c.comparators[0]) == "key" and "[0]" in norm(c.left)
+        for g in n.generators for c in g.ifs)]
+    res.oblige("M4", f"{CONTAINER}.__delitem__ removes exactly the pairs whose key equals the key", ok=bool(filt))
+    if not filt:
+        F("__delitem__", "filter item[0] != key", "deletion no longer keeps exactly the pairs with a different key")
+    # pop() -> last pair
+    fn = ci.methods["pop"]
+    pops = [n for n in ast.walk(fn) if isinstance(n, ast.Call) and isinstance(n.func, ast.Attribute) and n.func.attr == "pop"
+            and is_items(n.func.value)]
+    ok = bool(pops) and all(not n.args and not n.keywords for n in pops)
+    res.oblige("M4", f"{CONTAINER}.pop() removes the last pair", ok=ok)
+    if not ok:
+        F("pop", "self.__items.pop()", "pop() without a key no longer removes the last pair of the list")
+    # insert
+    fn = ci.methods["insert"]
+    ins = [n for n in ast.walk(fn) if isinstance(n, ast.Call) and isinstance(n.func, ast.Attribute) and n.func.attr == "insert"
+           and is_items(n.func.value)]
+    ok = bool(ins) and all(len(n.args) == 2 and norm(n.args[0]) == "index" and norm(n.args[1]) == "(key, value)" for n in ins) and \
+        any(isinstance(n, ast.AugAssign) and norm(n.target) == "index" and isinstance(n.op, ast.Add) and norm(n.value) == "1"
+            for n in ast.walk(fn))
+    res.oblige("M4", f"{CONTAINER}.insert places the pairs at index, index + 1, ...", ok=ok)
+    if not ok:
+        F("insert", "consecutive indices", "insert no longer places the given pairs at consecutive positions starting at index")
+    for nm, off in (("insert_after", "index + 1"), ("insert_before", "index")):
+        fn = ci.methods.get(nm)
+        if fn is None:
+            continue
+        ki = any(isinstance(n, ast.Assign) and norm(n.targets[0]) == "index" and norm(n.value) == "self.key_index(key, instance)"
+                 for n in ast.walk(fn))
+        call = [n for n in ast.walk(fn) if isinstance(n, ast.Call) and norm(n.func) == "self.insert"]
+        ok = ki and bool(call) and all(norm(c.args[0]) == off for c in call if c.args)
+        res.oblige("M4", f"{CONTAINER}.{nm} inserts at key_index(key, instance){' + 1' if off != 'index' else ''}", ok=ok)
+        if not ok:
+            F(nm, off, f"{nm} no longer inserts at `{off}` with index = key_index(key, instance)")
+    fn = ci.methods["key_index"]
+    ok = any(isinstance(r, ast.Return) and isinstance(r.value, ast.Subscript) and norm(r.value.slice) == "instance" for r in ast.walk(fn)) and \
+        any(isinstance(c, ast.Compare) and isinstance(c.ops[0], ast.Eq) and "key" in {norm(c.left), norm(c.comparators[0])} for c in ast.walk(fn))
+    res.oblige("M4", f"{CONTAINER}.key_index returns the instance-th position whose key equals the key", ok=ok)
+    if not ok:
+        F("key_index", "idxs[instance]", "key_index no longer returns the instance-th position of the key")
+    # equality compares pairs in order, both key and value, same class, same length
+    fn = ci.methods["__eq__"]
+    src = norm(fn, 4000)
+    ok = "isinstance(other, type(self))" in src and "len(self) != len(other)" in src and \
+        sum(1 for c in ast.walk(fn) if isinstance(c, ast.Compare) and isinstance(c.ops[0], ast.NotEq)) >= 3
+    res.oblige("M4", f"{CONTAINER}.__eq__: same class, same length, pairwise equal keys and values", ok=ok)
+    if not ok:
+        F("__eq__", "pairwise comparison", "equality no longer requires the same class, the same length and pairwise equal keys and values")
